@@ -82,60 +82,155 @@ func c19R3(c *Ctx) {
 		r.Undecided("C19.R3", "acceptDataChannels|parameters-literal", c.P.Pos(call.Pos()), "newDataChannel is not called with a DataChannelParameters literal")
 		return
 	}
-	// address-of expressions that reach a field of the literal: directly, or through a local pointer variable
-	addrOf := func(e ast.Expr) *types.Var {
-		u, ok := ast.Unparen(e).(*ast.UnaryExpr)
-		if !ok || u.Op != token.AND {
-			return nil
-		}
-		return core.VarOf(info, u.X)
+	// Where does a pointer stored in the literal come from? Directly `&x`, through a local pointer variable
+	// assigned `&x`, or from a same-package helper (directly or via `a, b := helper(...)`), which is followed
+	// into its return statements (two levels). The pointed-to variable must be fresh per accepted channel:
+	// declared inside the loop body, or a local / parameter / named result of the helper (fresh per call).
+	type scope struct {
+		fd     *ast.FuncDecl
+		info   *types.Info
+		lo, hi token.Pos // where a variable must be declared to be fresh
+		what   string
 	}
 	n := 0
-	judge := func(field string, v *types.Var, at token.Pos) {
-		n++
-		inside := v.Pos() >= body.Lbrace && v.Pos() <= body.Rbrace
-		r.Check(inside, "C19.R3", "acceptDataChannels|"+field+"|points-to-per-channel-variable", c.P.Pos(at),
-			"&"+v.Name()+" is a variable of the loop body (fresh for every accepted channel)",
-			"the channel keeps a pointer to `"+v.Name()+"`, which is declared outside the accept loop: every channel created in-band shares it, so a later accept rewrites the "+field+" that earlier channels report")
+	type seenKey struct {
+		fd *ast.FuncDecl
+		v  *types.Var
 	}
-	for _, el := range lit.Elts {
-		kv, ok := el.(*ast.KeyValueExpr)
-		if !ok {
-			continue
+	seen := map[seenKey]bool{}
+	var origin func(sc scope, field string, e ast.Expr, depth int)
+	var followCall func(sc scope, field string, call *ast.CallExpr, idx int, depth int)
+	judgeVar := func(sc scope, field string, v *types.Var, at token.Pos) {
+		n++
+		inside := v.Pos() >= sc.lo && v.Pos() <= sc.hi
+		r.Check(inside, "C19.R3", "acceptDataChannels|"+field+"|points-to-per-channel-variable", c.P.Pos(at),
+			"&"+v.Name()+" is a variable of "+sc.what+" (fresh for every accepted channel)",
+			"the channel keeps a pointer to `"+v.Name()+"`, which is declared outside "+sc.what+": every channel created in-band shares it, so a later accept rewrites the "+field+" that earlier channels report")
+	}
+	origin = func(sc scope, field string, e ast.Expr, depth int) {
+		e = ast.Unparen(e)
+		if core.IsNilIdent(sc.info, e) {
+			return
 		}
-		field := exprStr(kv.Key)
-		if v := addrOf(kv.Value); v != nil {
-			judge(field, v, kv.Value.Pos())
-			continue
+		if u, ok := e.(*ast.UnaryExpr); ok && u.Op == token.AND {
+			if v := core.VarOf(sc.info, u.X); v != nil {
+				judgeVar(sc, field, v, e.Pos())
+				return
+			}
+			if _, isLit := ast.Unparen(u.X).(*ast.CompositeLit); isLit {
+				return // &T{...}: a fresh allocation
+			}
+			n++
+			r.Undecided("C19.R3", "acceptDataChannels|"+field+"|points-to-per-channel-variable", c.P.Pos(e.Pos()), "the address of "+exprStr(u.X)+" is stored in the channel; cannot decide whether it is per-channel storage")
+			return
 		}
-		pv := core.VarOf(info, kv.Value)
+		if call, ok := e.(*ast.CallExpr); ok {
+			followCall(sc, field, call, 0, depth)
+			return
+		}
+		pv := core.VarOf(sc.info, e)
 		if pv == nil {
-			continue
+			return
 		}
 		if _, isPtr := pv.Type().Underlying().(*types.Pointer); !isPtr {
-			continue
+			return
 		}
-		// every assignment `pv = &x` in the function
-		ast.Inspect(accept.Decl.Body, func(x ast.Node) bool {
+		if seen[seenKey{sc.fd, pv}] {
+			return
+		}
+		seen[seenKey{sc.fd, pv}] = true
+		if sc.fd != accept.Decl && sc.fd.Type.Params != nil && pv.Pos() >= sc.fd.Type.Params.Pos() && pv.Pos() <= sc.fd.Type.Params.End() {
+			// a helper handing back a pointer it was given: the caller's argument decides, and it is not tracked
+			n++
+			r.Undecided("C19.R3", "acceptDataChannels|"+field+"|points-to-per-channel-variable", c.P.Pos(e.Pos()), "the helper returns its pointer parameter `"+pv.Name()+"`; whether that is per-channel storage depends on the caller's argument")
+			return
+		}
+		// every assignment to pv in the function
+		ast.Inspect(sc.fd.Body, func(x ast.Node) bool {
 			as, ok := x.(*ast.AssignStmt)
 			if !ok {
 				return true
 			}
 			for i, l := range as.Lhs {
-				if core.VarOf(info, l) == pv && i < len(as.Rhs) {
-					if v := addrOf(as.Rhs[i]); v != nil {
-						judge(field, v, as.Rhs[i].Pos())
+				if core.VarOf(sc.info, l) != pv {
+					continue
+				}
+				switch {
+				case len(as.Rhs) == len(as.Lhs):
+					origin(sc, field, as.Rhs[i], depth)
+				case len(as.Rhs) == 1:
+					if call, ok := ast.Unparen(as.Rhs[0]).(*ast.CallExpr); ok {
+						followCall(sc, field, call, i, depth)
 					}
 				}
 			}
 			return true
 		})
-		// the pointer variable itself must be per-iteration too (else a stale pointer of the previous channel survives)
+		// the pointer variable itself must be per-channel too (else a stale pointer of the previous channel survives)
 		n++
-		inside := pv.Pos() >= body.Lbrace && pv.Pos() <= body.Rbrace
-		r.Check(inside, "C19.R3", "acceptDataChannels|"+field+"|pointer-variable-per-channel", c.P.Pos(kv.Value.Pos()),
-			pv.Name()+" is declared in the loop body (starts nil for every channel)",
-			"`"+pv.Name()+"` is declared outside the accept loop: a channel type that does not set it inherits the previous channel's pointer")
+		inside := pv.Pos() >= sc.lo && pv.Pos() <= sc.hi
+		r.Check(inside, "C19.R3", "acceptDataChannels|"+field+"|pointer-variable-per-channel", c.P.Pos(e.Pos()),
+			pv.Name()+" is declared in "+sc.what+" (starts nil for every channel)",
+			"`"+pv.Name()+"` is declared outside "+sc.what+": a channel type that does not set it inherits the previous channel's pointer")
+	}
+	followCall = func(sc scope, field string, call *ast.CallExpr, idx int, depth int) {
+		fn := core.Callee(sc.info, call)
+		fi := c.P.DeclOf(fn)
+		if fn == nil || fi == nil || fi.Decl.Body == nil || depth >= 2 {
+			// conversions, builtins (new), external or too deep: an unknown provenance only matters for pointers
+			if t := sc.info.TypeOf(call); t != nil {
+				if tup, ok := t.(*types.Tuple); ok && idx < tup.Len() {
+					t = tup.At(idx).Type()
+				}
+				if _, isPtr := t.Underlying().(*types.Pointer); isPtr && fn != nil {
+					n++
+					r.Undecided("C19.R3", "acceptDataChannels|"+field+"|points-to-per-channel-variable", c.P.Pos(call.Pos()), "the pointer comes from "+core.FuncName(fn)+", which is not followed (outside the module or nested too deep)")
+				}
+			}
+			return
+		}
+		hs := scope{fd: fi.Decl, info: fi.Pkg.TypesInfo, lo: fi.Decl.Pos(), hi: fi.Decl.End(), what: "the helper " + fi.Name() + " (local to each call)"}
+		sig := fn.Type().(*types.Signature)
+		ast.Inspect(fi.Decl.Body, func(x ast.Node) bool {
+			if _, isLit := x.(*ast.FuncLit); isLit {
+				return false
+			}
+			ret, ok := x.(*ast.ReturnStmt)
+			if !ok {
+				return true
+			}
+			switch {
+			case len(ret.Results) == sig.Results().Len():
+				origin(hs, field, ret.Results[idx], depth+1)
+			case len(ret.Results) == 0 && idx < sig.Results().Len() && sig.Results().At(idx).Name() != "":
+				// naked return: the named result
+				for _, fl := range fi.Decl.Type.Results.List {
+					for _, nm := range fl.Names {
+						if fi.Pkg.TypesInfo.Defs[nm] == types.Object(sig.Results().At(idx)) {
+							origin(hs, field, nm, depth+1)
+						}
+					}
+				}
+			case len(ret.Results) == 1:
+				if inner, ok := ast.Unparen(ret.Results[0]).(*ast.CallExpr); ok {
+					followCall(hs, field, inner, idx, depth+1)
+				}
+			}
+			return true
+		})
+	}
+	loopScope := scope{fd: accept.Decl, info: info, lo: body.Lbrace, hi: body.Rbrace, what: "the accept loop body"}
+	for _, el := range lit.Elts {
+		kv, ok := el.(*ast.KeyValueExpr)
+		if !ok {
+			continue
+		}
+		if t := info.TypeOf(kv.Value); t != nil {
+			if _, isPtr := t.Underlying().(*types.Pointer); !isPtr {
+				continue
+			}
+		}
+		origin(loopScope, exprStr(kv.Key), kv.Value, 0)
 	}
 	if n == 0 {
 		r.Undecided("C19.R3", "acceptDataChannels|pointer-parameters", c.P.Pos(lit.Pos()), "no pointer-valued parameter found in the literal")
